@@ -1,8 +1,11 @@
 #!/bin/bash
-# usage: tools/tryseed.sh <seed id> <PROP> [tier]  -- applies seeded/<id>/patch.diff to /repo, runs the check, restores /repo and the evidence
+# usage: tools/tryseed.sh <seed id> <PROP> [tier] [lines]  -- runs the check against a scratch worktree of /repo HEAD with seeded/<id>/patch.diff
+# applied (VERIF_REPO); /repo itself is never touched (long runs and sweeps read it); the evidence file is restored afterwards
 ID=$1; P=$2; T=${3:-quick}
-if [ -n "$(git -C /repo status --short)" ]; then echo "refusing: /repo has uncommitted changes (they would be reverted)"; exit 8; fi
-cd /repo && (git apply /verif/seeded/$ID/patch.diff 2>/dev/null || patch -p1 -F3 --no-backup-if-mismatch < /verif/seeded/$ID/patch.diff >/dev/null) || { echo "patch does not apply"; exit 9; }
-cd /verif; ./check $P --tier $T 2>&1 | grep -v "^KNOWN" | tail -${4:-4} | cut -c1-300
-cd /repo && git checkout -- . && git status --short | head -3
-cd /verif && git checkout -- evidence/$P.json
+WT=/tmp/tryseed_$ID; rm -rf $WT; git -C /repo worktree prune
+git -C /repo worktree add -q --detach $WT HEAD || exit 9
+(cd $WT && (git apply /verif/seeded/$ID/patch.diff 2>/dev/null || patch -p1 -F3 --no-backup-if-mismatch < /verif/seeded/$ID/patch.diff >/dev/null)) || { echo "patch does not apply"; git -C /repo worktree remove --force $WT; exit 9; }
+cd /verif; cp evidence/$P.json /tmp/tryseed_$P.ev 2>/dev/null
+VERIF_REPO=$WT ./check $P --tier $T 2>&1 | grep -v "^KNOWN" | tail -${4:-4} | cut -c1-300
+cp /tmp/tryseed_$P.ev evidence/$P.json 2>/dev/null
+git -C /repo worktree remove --force $WT
